@@ -39,7 +39,16 @@ unsafe impl<T: ?Sized, R: RawMutex> RawLock for Mutex<T, R> {
 
 		// if the closure unwraps, then the mutex will be killed
 		let this = AssertUnwindSafe(self);
-		handle_unwind(|| this.raw.try_lock(), || self.poison())
+		let locked = handle_unwind(|| this.raw.try_lock(), || self.poison());
+
+		// the mutex may have been killed during the attempt
+		if locked && self.poison.is_poisoned() {
+			// safety: we just locked it
+			self.raw.unlock();
+			return false;
+		}
+
+		locked
 	}
 
 	unsafe fn raw_unlock_write(&self) {
